@@ -686,11 +686,19 @@ def filesInfoLoop (d : Bytes) (numFiles : Nat) (pos : Nat) (names : Option (List
             | .error e => .error e
             | .ok allDef =>
               if allDef.val ≠ 0 then
-                -- `[True] * count`, then one `read_uint32` per file
-                if allDef.pos + 4 * numFiles ≤ d.length ∨ numFiles = 0 then .ok (names, emptyCount, nameSteps, alloc + numFiles) else .error .bad7z
+                -- `[True] * count`, the External byte (must be 0), then one `read_uint32` per file
+                match readU8 d allDef.pos with
+                | .error e => .error e
+                | .ok ext =>
+                  if ext.val ≠ 0 then .error .bad7z
+                  else if ext.pos + 4 * numFiles ≤ d.length ∨ numFiles = 0 then .ok (names, emptyCount, nameSteps, alloc + numFiles) else .error .bad7z
               else if allDef.pos + boolVectorBytes numFiles ≤ d.length then
                 let k := popcountBits d allDef.pos numFiles
-                if allDef.pos + boolVectorBytes numFiles + 4 * k ≤ d.length ∨ k = 0 then .ok (names, emptyCount, nameSteps, alloc) else .error .bad7z
+                match readU8 d (allDef.pos + boolVectorBytes numFiles) with
+                | .error e => .error e
+                | .ok ext =>
+                  if ext.val ≠ 0 then .error .bad7z
+                  else if ext.pos + 4 * k ≤ d.length ∨ k = 0 then .ok (names, emptyCount, nameSteps, alloc) else .error .bad7z
               else .error .bad7z
           else .ok (names, emptyCount, nameSteps, alloc)
         match handled with
